@@ -107,7 +107,9 @@ func c27ChannelsCodecs() []c27.Codec {
 		c27ReqCodec("LastVisibleRequest", c27ChNonNeg, nil, encodeLastVisibleRequest, decodeLastVisibleRequest, nil),
 		c27ReqCodec("ConversationHeadsRequest", c27ChNonNeg, nil, encodeConversationHeadsRequest, decodeConversationHeadsRequest, nil),
 		c27ReqCodec("CommittedReadsRequest", c27ChOpts, nil,
-			func(v CommittedReadsRequest) ([]byte, error) { return encodeCommittedReadsRequestVersion(v, codecVersion) }, decodeCommittedReadsRequest, nil),
+			func(v CommittedReadsRequest) ([]byte, error) {
+				return encodeCommittedReadsRequestVersion(v, codecVersion)
+			}, decodeCommittedReadsRequest, nil),
 
 		c27ReqCodec("PullResponse", c27ChOpts, nil, encodePullResponse, decodePullResponse, nil),
 		c27ReqCodec("PullBatchResponse", c27ChOpts, func(rng *rand.Rand, v *channeltransport.PullBatchResponse) {
@@ -125,7 +127,9 @@ func c27ChannelsCodecs() []c27.Codec {
 			return ""
 		}),
 		c27ReqCodec("PullHintBatchResponse", c27ChOpts, nil,
-			func(v channeltransport.PullHintBatchResponse) ([]byte, error) { return resp(kindPullHintBatchResponse, v) },
+			func(v channeltransport.PullHintBatchResponse) ([]byte, error) {
+				return resp(kindPullHintBatchResponse, v)
+			},
 			func(d []byte) (channeltransport.PullHintBatchResponse, error) {
 				var out channeltransport.PullHintBatchResponse
 				return out, decodeRPCResult(d, kindPullHintBatchResponse, &out)
